@@ -12,6 +12,7 @@ import (
 	"rcproxy/core/pkg/buffer/linkedlist"
 	"rcproxy/core/pkg/buffer/ring"
 	"rcproxy/core/pkg/hashkit"
+	"rcproxy/core/vsys"
 	"rcproxy/core/zz_verif/explore"
 	"rcproxy/core/zz_verif/world"
 )
@@ -299,11 +300,11 @@ func bufConfigs(tier string) []bufCfg {
 		{"elastic-ring", func() fifo { return eringQ{&elastic.RingBuffer{}} }, 4},
 		{"elastic/8", func() fifo { b, _ := elastic.New(8); return elQ{b} }, 8},
 		{"elastic/1024", func() fifo { b, _ := elastic.New(1024); return elQ{b} }, 1024},
+		{"ring/4096", func() fifo { return ringQ{ring.New(4096)} }, 4096},
 	}
 	if tier == "thorough" {
 		cfgs = append(cfgs,
 			bufCfg{"ring/1024", func() fifo { return ringQ{ring.New(1024)} }, 1024},
-			bufCfg{"ring/4096", func() fifo { return ringQ{ring.New(4096)} }, 4096},
 			bufCfg{"elastic/4", func() fifo { b, _ := elastic.New(4); return elQ{b} }, 4},
 			bufCfg{"elastic/4096", func() fifo { b, _ := elastic.New(4096); return elQ{b} }, 4096},
 		)
@@ -345,9 +346,14 @@ func bufOps(c int) []bufOp {
 func runBufSeq(cfg bufCfg, ops []bufOp) (sig, msg string) {
 	defer func() {
 		if r := recover(); r != nil {
-			sig, msg = cfg.name+":panic", fmt.Sprintf("%s: ops %v panicked: %v", cfg.name, ops, r)
+			last := "?"
+			if len(ops) > 0 {
+				last = ops[len(ops)-1].kind
+			}
+			sig, msg = strings.SplitN(cfg.name, "/", 2)[0]+":"+last+":panic", fmt.Sprintf("%s: ops %v panicked: %v", cfg.name, ops, r)
 		}
 	}()
+	vsys.LoopReset()
 	q := cfg.mk()
 	var ref []byte
 	ctr := byte(0)
@@ -491,7 +497,7 @@ func c19Seq(tier string, shard, n int, deadline time.Time, res *Result) {
 			if len(seq) > 0 {
 				idx++
 				if idx%n == shard {
-					if idx%4096 == 0 && time.Now().After(deadline) {
+					if res.Execs%2048 == 0 && time.Now().After(deadline) {
 						capped = true
 					}
 					res.Execs++
